@@ -59,3 +59,21 @@ def close(a, b, rtol, atol):
 def digest(a):
     a = np.ascontiguousarray(a)
     return zlib.crc32(a.tobytes()) ^ hash((a.shape, str(a.dtype))) & 0xFFFFFFFF
+
+
+import contextlib
+
+
+@contextlib.contextmanager
+def support_threshold(value):
+    """temporarily change pydrobert.speech.config.EFFECTIVE_SUPPORT_THRESHOLD (a configuration value the
+    filter-bank properties are stated relative to); None leaves it alone"""
+    from pydrobert.speech import config
+
+    old = config.EFFECTIVE_SUPPORT_THRESHOLD
+    if value is not None:
+        config.EFFECTIVE_SUPPORT_THRESHOLD = value
+    try:
+        yield
+    finally:
+        config.EFFECTIVE_SUPPORT_THRESHOLD = old
